@@ -76,49 +76,52 @@ def wolfeBracket (o : Objective α) (point dir : Vec α) (value gtd : α) (junk 
       let g' := o.grad p
       wolfeBracket o point dir value gtd junk k iter t' t fNew gNew (o.f p) g' (Vec.dot g' dir)
 
+/-- the trial step length of one zoom iteration (cubic interpolation + "sufficient progress" safeguard) and the new `insuf` -/
+def wolfeZoomT (sqrt : α → α) (dir : Vec α) (br : WBr α) (insuf : Bool) : α × Bool :=
+  let t := wlsCubicInterp sqrt br.t0 br.t1 br.f0 br.f1 (Vec.dot br.g0 dir) (Vec.dot br.g1 dir)
+  let mint := Scalar.min br.t0 br.t1
+  let maxt := Scalar.max br.t0 br.t1
+  let tenth : α := Scalar.ofRat (1/10)
+  let close := decide (Scalar.min (maxt - t) (t - mint) / (maxt - mint) < tenth)
+  let force := close && (insuf || decide (maxt ≤ t) || decide (t ≤ mint))
+  let t := if force then
+      (if Scalar.abs (t - maxt) < Scalar.abs (t - mint) then maxt - tenth * (maxt - mint)
+       else mint + tenth * (maxt - mint))
+    else t
+  (t, close && !force)
+
+/-- the bracket update of one zoom iteration for the trial `(t, fNew, gNew)`; returns the new bracket and `done` -/
+def wolfeZoomUpd (value gtd : α) (br : WBr α) (t fNew : α) (gNew : Vec α) (gtdNew : α) : WBr α × Bool :=
+  let lo1 := decide (br.f1 < br.f0)             -- lo = 1, hi = 0
+  let flo := if lo1 then br.f1 else br.f0
+  let tlo := if lo1 then br.t1 else br.t0
+  let glo := if lo1 then br.g1 else br.g0
+  let thi := if lo1 then br.t0 else br.t1
+  if decide (value + wolfeC1 * t * gtd < fNew) || decide (flo < fNew) then
+    -- new t_hi
+    (if lo1 then { br with t0 := t, f0 := fNew, g0 := gNew } else { br with t1 := t, f1 := fNew, g1 := gNew }, false)
+  else
+    let done := decide (Scalar.abs gtdNew ≤ (-wolfeC2) * gtd)
+    let moveHi := !done && decide (Scalar.zero ≤ gtdNew * (thi - tlo))
+    -- hi := lo (when moveHi), then lo := new
+    let br1 : WBr α := if moveHi then
+        (if lo1 then { br with t0 := tlo, f0 := flo, g0 := glo } else { br with t1 := tlo, f1 := flo, g1 := glo })
+      else br
+    (if lo1 then { br1 with t1 := t, f1 := fNew, g1 := gNew } else { br1 with t0 := t, f0 := fNew, g0 := gNew }, done)
+
 /-- the zoom loop `while (!done && iter++ < maxIter)`; returns the bracket and the final `iter` -/
 def wolfeZoom (sqrt : α → α) (o : Objective α) (point dir : Vec α) (value gtd maxD : α) :
     Nat → Nat → WBr α → Bool → WBr α × Nat
   | 0, iter, br, _ => (br, iter + 1)
   | k+1, iter0, br, insuf =>
     if !(decide (iter0 < wolfeMaxIter)) then (br, iter0 + 1) else
-    let iter := iter0 + 1
-    let lo1 := decide (br.f1 < br.f0)             -- lo = 1, hi = 0
-    let t := wlsCubicInterp sqrt br.t0 br.t1 br.f0 br.f1 (Vec.dot br.g0 dir) (Vec.dot br.g1 dir)
-    let mint := Scalar.min br.t0 br.t1
-    let maxt := Scalar.max br.t0 br.t1
-    let tenth : α := Scalar.ofRat (1/10)
-    let close := decide (Scalar.min (maxt - t) (t - mint) / (maxt - mint) < tenth)
-    let force := close && (insuf || decide (maxt ≤ t) || decide (t ≤ mint))
-    let t := if force then
-        (if Scalar.abs (t - maxt) < Scalar.abs (t - mint) then maxt - tenth * (maxt - mint)
-         else mint + tenth * (maxt - mint))
-      else t
-    let insuf := close && !force
-    let p := Vec.axpy point t dir
-    let fNew := o.f p
+    let ti := wolfeZoomT sqrt dir br insuf
+    let p := Vec.axpy point ti.1 dir
     let gNew := o.grad p
-    let gtdNew := Vec.dot gNew dir
-    let flo := if lo1 then br.f1 else br.f0
-    let tlo := if lo1 then br.t1 else br.t0
-    let glo := if lo1 then br.g1 else br.g0
-    let thi := if lo1 then br.t0 else br.t1
-    if decide (value + wolfeC1 * t * gtd < fNew) || decide (flo < fNew) then
-      -- new t_hi
-      let br' : WBr α := if lo1 then { br with t0 := t, f0 := fNew, g0 := gNew } else { br with t1 := t, f1 := fNew, g1 := gNew }
-      if Scalar.abs (br'.t0 - br'.t1) * maxD < Scalar.ofRat (1/1000000000) then (br', iter)
-      else wolfeZoom sqrt o point dir value gtd maxD k iter br' insuf
-    else
-      let done := decide (Scalar.abs gtdNew ≤ (-wolfeC2) * gtd)
-      let moveHi := !done && decide (Scalar.zero ≤ gtdNew * (thi - tlo))
-      -- hi := lo (when moveHi), then lo := new
-      let br1 : WBr α := if moveHi then
-          (if lo1 then { br with t0 := tlo, f0 := flo, g0 := glo } else { br with t1 := tlo, f1 := flo, g1 := glo })
-        else br
-      let br' : WBr α := if lo1 then { br1 with t1 := t, f1 := fNew, g1 := gNew } else { br1 with t0 := t, f0 := fNew, g0 := gNew }
-      if done then (br', iter)
-      else if Scalar.abs (br'.t0 - br'.t1) * maxD < Scalar.ofRat (1/1000000000) then (br', iter)
-      else wolfeZoom sqrt o point dir value gtd maxD k iter br' insuf
+    let r := wolfeZoomUpd value gtd br ti.1 (o.f p) gNew (Vec.dot gNew dir)
+    if r.2 then (r.1, iter0 + 1)
+    else if Scalar.abs (r.1.t0 - r.1.t1) * maxD < Scalar.ofRat (1/1000000000) then (r.1, iter0 + 1)
+    else wolfeZoom sqrt o point dir value gtd maxD k (iter0 + 1) r.1 ti.2
 
 /-- the final selection of `wolfecubic` -/
 def wolfeSelect (point dir : Vec α) (value : α) (gradient : Vec α) (br : WBr α) (single : Bool) (iter : Nat) : LSOut α :=
@@ -137,6 +140,12 @@ def wolfecubicJ (sqrt : α → α) (junk : WBr α) : LineSearch α := fun o poin
   let z := if ph.single then (ph.br, ph.iter)
            else wolfeZoom sqrt o point dir value gtd maxD (wolfeMaxIter + 1) ph.iter ph.br false
   wolfeSelect point dir value gradient z.1 ph.single z.2
+
+/-- `wolfecubic` with the bracket arrays initialised to the starting point (`bracket = {0,0}`, `bracketf = {value,value}`,
+`bracketg = {gradient,gradient}`): what a tree with the repair of finding F-C10-16 contains, and what the driver runs
+(the tie cannot observe indeterminate memory) -/
+def wolfecubic (sqrt : α → α) : LineSearch α := fun o point value dir gradient t =>
+  wolfecubicJ sqrt ⟨Scalar.zero, Scalar.zero, value, value, gradient, gradient⟩ o point value dir gradient t
 
 /-! ## dlinmin -/
 
@@ -204,6 +213,46 @@ structure DBrent (α : Type) where
   dw : α
   dv : α
 
+/-- the new `(d, e)` of one Brent iteration (secant steps from the derivatives, bisection otherwise) -/
+def dBrentDE (s : DBrent α) (xm tol1 tol2 : α) : α × α :=
+  let bis : α × α :=     -- (d, e) of `d = 0.5 * (e = (dx >= 0. ? a - x : b - x))`
+    let e := if Scalar.zero ≤ s.dx then s.a - s.x else s.b - s.x
+    (Scalar.half * e, e)
+  if tol1 < Scalar.abs s.e then
+    let d1 := if !(Scalar.beq s.dw s.dx) then (s.w - s.x) * s.dx / (s.dx - s.dw) else Scalar.two * (s.b - s.a)
+    let d2 := if !(Scalar.beq s.dv s.dx) then (s.v - s.x) * s.dx / (s.dx - s.dv) else Scalar.two * (s.b - s.a)
+    let u1 := s.x + d1
+    let u2 := s.x + d2
+    let ok1 := decide (Scalar.zero < (s.a - u1) * (u1 - s.b)) && decide (s.dx * d1 ≤ Scalar.zero)
+    let ok2 := decide (Scalar.zero < (s.a - u2) * (u2 - s.b)) && decide (s.dx * d2 ≤ Scalar.zero)
+    let olde := s.e
+    let e := s.d
+    if ok1 || ok2 then
+      let d := if ok1 && ok2 then (if Scalar.abs d1 < Scalar.abs d2 then d1 else d2) else if ok1 then d1 else d2
+      if Scalar.abs d ≤ Scalar.abs (Scalar.half * olde) then
+        let u := s.x + d
+        if decide (u - s.a < tol2) || decide (s.b - u < tol2) then (Scalar.copySign tol1 (xm - s.x), e) else (d, e)
+      else bis
+    else bis
+  else bis
+
+/-- "reduce interval length": the state after the trial `(u, fu, du)` -/
+def dBrentUpd (s : DBrent α) (d e u fu du : α) : DBrent α :=
+  if fu ≤ s.fx then
+    let a := if s.x ≤ u then s.x else s.a
+    let b := if s.x ≤ u then s.b else s.x
+    { a := a, b := b, d := d, e := e, x := u, w := s.x, v := s.w, fx := fu, fw := s.fx, fv := s.fw,
+      dx := du, dw := s.dx, dv := s.dw }
+  else
+    let a := if u < s.x then u else s.a
+    let b := if u < s.x then s.b else u
+    let s1 : DBrent α := { s with a := a, b := b, d := d, e := e }
+    if decide (fu ≤ s.fw) || Scalar.beq s.w s.x then
+      { s1 with v := s.w, w := u, fv := s.fw, fw := fu, dv := s.dw, dw := du }
+    else if decide (fu < s.fv) || Scalar.beq s.v s.x || Scalar.beq s.v s.w then
+      { s1 with v := u, fv := fu, dv := du }
+    else s1
+
 /-- `for (iter = 0; iter < ITMAX; iter++)` of `dlinmin`; returns the final state (only `x`, `fx` are used) -/
 def dBrent (o : Objective α) (p dir : Vec α) : Nat → DBrent α → DBrent α
   | 0, s => s
@@ -212,56 +261,26 @@ def dBrent (o : Objective α) (p dir : Vec α) : Nat → DBrent α → DBrent α
     let tol1 := dTOL * Scalar.abs s.x + dZEPS
     let tol2 := Scalar.two * tol1
     if Scalar.abs (s.x - xm) ≤ tol2 - Scalar.half * (s.b - s.a) then s else
-    let bis : α × α :=     -- (d, e) of `d = 0.5 * (e = (dx >= 0. ? a - x : b - x))`
-      let e := if Scalar.zero ≤ s.dx then s.a - s.x else s.b - s.x
-      (Scalar.half * e, e)
-    let de : α × α :=
-      if tol1 < Scalar.abs s.e then
-        let d1 := if !(Scalar.beq s.dw s.dx) then (s.w - s.x) * s.dx / (s.dx - s.dw) else Scalar.two * (s.b - s.a)
-        let d2 := if !(Scalar.beq s.dv s.dx) then (s.v - s.x) * s.dx / (s.dx - s.dv) else Scalar.two * (s.b - s.a)
-        let u1 := s.x + d1
-        let u2 := s.x + d2
-        let ok1 := decide (Scalar.zero < (s.a - u1) * (u1 - s.b)) && decide (s.dx * d1 ≤ Scalar.zero)
-        let ok2 := decide (Scalar.zero < (s.a - u2) * (u2 - s.b)) && decide (s.dx * d2 ≤ Scalar.zero)
-        let olde := s.e
-        let e := s.d
-        if ok1 || ok2 then
-          let d := if ok1 && ok2 then (if Scalar.abs d1 < Scalar.abs d2 then d1 else d2) else if ok1 then d1 else d2
-          if Scalar.abs d ≤ Scalar.abs (Scalar.half * olde) then
-            let u := s.x + d
-            if decide (u - s.a < tol2) || decide (s.b - u < tol2) then (Scalar.copySign tol1 (xm - s.x), e) else (d, e)
-          else bis
-        else bis
-      else bis
-    let d := de.1
-    let e := de.2
-    let small := !(decide (tol1 ≤ Scalar.abs d))
-    let u := if small then s.x + Scalar.copySign tol1 d else s.x + d
+    let de := dBrentDE s xm tol1 tol2
+    let small := !(decide (tol1 ≤ Scalar.abs de.1))
+    let u := if small then s.x + Scalar.copySign tol1 de.1 else s.x + de.1
     let xt := Vec.axpy p u dir
     let fu := o.f xt
-    if small && decide (s.fx < fu) then { s with d := d, e := e } else
-    let du := Vec.dot dir (o.grad xt)
-    if fu ≤ s.fx then
-      let a := if s.x ≤ u then s.x else s.a
-      let b := if s.x ≤ u then s.b else s.x
-      dBrent o p dir k { a := a, b := b, d := d, e := e, x := u, w := s.x, v := s.w, fx := fu, fw := s.fx, fv := s.fw,
-                         dx := du, dw := s.dx, dv := s.dw }
-    else
-      let a := if u < s.x then u else s.a
-      let b := if u < s.x then s.b else u
-      let s1 : DBrent α := { s with a := a, b := b, d := d, e := e }
-      if decide (fu ≤ s.fw) || Scalar.beq s.w s.x then
-        dBrent o p dir k { s1 with v := s.w, w := u, fv := s.fw, fw := fu, dv := s.dw, dw := du }
-      else if decide (fu < s.fv) || Scalar.beq s.v s.x || Scalar.beq s.v s.w then
-        dBrent o p dir k { s1 with v := u, fv := fu, dv := du }
-      else dBrent o p dir k s1
+    if small && decide (s.fx < fu) then s else
+    dBrent o p dir k (dBrentUpd s de.1 de.2 u fu (Vec.dot dir (o.grad xt)))
+
+/-- the state the Brent stage starts from: `a, b` = the outer points of the bracket in order, `x = w = v = bx` -/
+def dBrentStart (s : DBr α) (fx dx : α) : DBrent α :=
+  let a := if s.ax < s.cx then s.ax else s.cx
+  let b := if s.ax < s.cx then s.cx else s.ax
+  ⟨a, b, Scalar.zero, Scalar.zero, s.bx, s.bx, s.bx, fx, fx, fx, dx, dx, dx⟩
 
 /-- fuel of the (unbounded) bracketing loop of `dlinmin` in the model -/
 def dBracketFuel : Nat := 4000
 
 /-- `dlinmin(p, searchDirection, value, func, ax, bx)` followed by `evalDerivative(p, derivative)` as in
 `LineSearch::operator()`; `value` is overwritten by `func.eval(p)` -/
-def dlinmin (ax0 bx0 : α) : LineSearch α := fun o p _value dir gradient _t =>
+def dlinmin (ax0 bx0 : α) : LineSearch α := fun o p _value dir _gradient _t =>
   let fp := o.f p
   let fb0 := o.f (Vec.axpy p Scalar.one dir)          -- `xt = p + searchDirection`
   let sw := decide (fp < fb0)
@@ -272,24 +291,20 @@ def dlinmin (ax0 bx0 : α) : LineSearch α := fun o p _value dir gradient _t =>
   let cx := bx + dGOLD * (bx - ax)
   let fc := o.f (Vec.axpy p cx dir)
   match dBracket o p dir dBracketFuel ⟨ax, bx, cx, fa, fb, fc⟩ with
-  | none => ⟨p, fp, gradient⟩       -- not reached by the C++ (its loop has no bound); the driver reports it
+  | none => ⟨p, fp, o.grad p⟩       -- not reached by the C++ (its loop has no bound); the driver reports it
   | some s =>
-    let a := if s.ax < s.cx then s.ax else s.cx
-    let b := if s.ax < s.cx then s.cx else s.ax
     let xt := Vec.axpy p s.bx dir
-    let fx := o.f xt
-    let dx := Vec.dot dir (o.grad xt)
-    let r := dBrent o p dir 100 ⟨a, b, Scalar.zero, Scalar.zero, s.bx, s.bx, s.bx, fx, fx, fx, dx, dx, dx⟩
+    let r := dBrent o p dir 100 (dBrentStart s (o.f xt) (Vec.dot dir (o.grad xt)))
     if r.fx < fp then
       let pt := Vec.axpy p r.x dir
       ⟨pt, r.fx, o.grad pt⟩
     else ⟨p, fp, o.grad p⟩
 
 /-- `LineSearch::operator()`: dispatch on `m_lineSearchType` (0 dlinmin, 1 wolfecubic, 2 backtracking) -/
-def lineSearchOf (sqrt : α → α) (junk : WBr α) (minI maxI : α) (type : Nat) : LineSearch α :=
+def lineSearchOf (sqrt : α → α) (minI maxI : α) (type : Nat) : LineSearch α :=
   match type with
   | 0 => dlinmin minI maxI
-  | 1 => wolfecubicJ sqrt junk
+  | 1 => wolfecubic sqrt
   | _ => backtracking
 
 end SharkVerif.Opt
